@@ -198,6 +198,19 @@ class SrcRig(_Rig):
         return self._finish(o)
 
 
+def _put_obj(self, req):
+    """submit a PutRequest object the caller keeps (and may submit again)"""
+    o = self._begin(("put",))
+    try:
+        o.ret = self.h.put_request(req)
+    except Exception as e:  # noqa: BLE001
+        o.exc = e
+    return self._finish(o)
+
+
+SrcRig.put_obj = _put_obj
+
+
 # --------------------------------------------------------------------------- PDU builders
 def metadata(conf, size, cktype=ChecksumType.CRC_32, closure=False, src="/src/file.bin",
              dst="/dst/file.bin", options=None):
